@@ -65,8 +65,16 @@ def run_vdump(check, entries, workdir):
     replace = []
     for r in check.get("replace", []):
         replace.append({"file": r["file"], "old": r["old"], "new": r["new"]})
+    roots = list(entries)
+    for o in [check.get("opts", {})] + [e.get("opts", {}) for e in check["entries"]]:
+        for v in o.get("substitute", {}).values():
+            if v not in roots:
+                roots.append(v)
+    for v in check.get("extra_roots", []):
+        if v not in roots:
+            roots.append(v)
     spec = {"dir": REPO, "patterns": check["packages"], "overlay": ov, "replace": replace,
-            "entries": entries, "descend": check.get("descend", DEFAULT_DESCEND) + check.get("descend_extra", []),
+            "entries": roots, "descend": check.get("descend", DEFAULT_DESCEND) + check.get("descend_extra", []),
             "stop": check.get("stop", []), "tags": ["verif"], "out": os.path.join(workdir, "ir.json")}
     sp = os.path.join(workdir, "spec.json")
     json.dump(spec, open(sp, "w"))
@@ -118,33 +126,67 @@ def run_entry(args):
         nadded = 0
         ts = time.time()
         nq = 0
-        for ob in ex.obligations:
-            while nadded < ob.nassume:
+        # batch pre-pass: all panic/unwind obligations sharing an assumption prefix are first checked as one disjunction
+        batch_ok = set()
+        groups = {}
+        for i, ob in enumerate(ex.obligations):
+            if ob.kind in ("panic",) and not (ob.cond is True or ob.guard is False):
+                groups.setdefault(ob.nassume, []).append(i)
+        for na, idxs in sorted(groups.items()):
+            if len(idxs) < 4:
+                continue
+            while nadded < na:
                 s.add(ex.assumes[nadded])
                 nadded += 1
+            s.push()
+            s.add(z3.Or(*[z3.And(to_z3_bool(ex.obligations[i].guard), to_z3_bool(b_not(ex.obligations[i].cond))) for i in idxs]))
+            r = s.check()
+            nq += 1
+            s.pop()
+            if os.environ.get("VERIF_VERBOSE"):
+                print("   batch of %d panic obligations (nassume=%d): %s in %.1fs" % (len(idxs), na, r, time.time() - ts), flush=True)
+            if r == z3.unsat:
+                batch_ok.update(idxs)
+        # NB: the incremental solver only ever grows its assumption prefix; obligations are visited in creation order
+        s2 = z3.Solver()
+        s2.set("timeout", timeout_ms)
+        nadded2 = 0
+        for i, ob in enumerate(ex.obligations):
+            while nadded2 < ob.nassume:
+                s2.add(ex.assumes[nadded2])
+                nadded2 += 1
             rec = {"kind": ob.kind, "name": ob.name, "pos": ob.pos, "fn": ob.fn}
             if ob.cond is True or ob.guard is False:
                 rec["result"] = "trivial"
                 res["obligations"].append(rec)
                 continue
-            s.push()
-            s.add(to_z3_bool(ob.guard))
-            s.add(to_z3_bool(b_not(ob.cond)))
+            if i in batch_ok:
+                rec["result"] = "unsat"
+                rec["batched"] = True
+                rec["reachable"] = True
+                res["obligations"].append(rec)
+                continue
+            s2.push()
+            s2.add(to_z3_bool(ob.guard))
+            s2.add(to_z3_bool(b_not(ob.cond)))
             tq = time.time()
-            r = s.check()
+            r = s2.check()
             nq += 1
             rec["solver_s"] = round(time.time() - tq, 4)
             if r == z3.unsat:
                 rec["result"] = "unsat"
-                # reachability of the obligation site (vacuity guard)
-                s.pop()
-                s.push()
-                s.add(to_z3_bool(ob.guard))
-                rr = s.check()
-                nq += 1
-                rec["reachable"] = (rr == z3.sat)
+                if ob.kind == "assert":
+                    # reachability of the assertion site (vacuity guard)
+                    s2.pop()
+                    s2.push()
+                    s2.add(to_z3_bool(ob.guard))
+                    rr = s2.check()
+                    nq += 1
+                    rec["reachable"] = (rr == z3.sat)
+                else:
+                    rec["reachable"] = True
             elif r == z3.sat:
-                m = s.model()
+                m = s2.model()
                 vals = []
                 for (n, term, kind) in ex.nondets:
                     try:
@@ -157,7 +199,7 @@ def run_entry(args):
             else:
                 rec["result"] = "unknown"
                 res["undecided"].append(rec)
-            s.pop()
+            s2.pop()
             res["obligations"].append(rec)
         # covers (with all assumptions up to their point)
         sc = z3.Solver()
@@ -183,7 +225,8 @@ def run_entry(args):
     except Unsupported as e:
         res["errors"].append("unsupported: " + str(e))
     except Exception as e:
-        res["errors"].append("exception: " + "".join(traceback.format_exception(type(e), e, e.__traceback__))[-3000:])
+        tb = traceback.format_exception(type(e), e, e.__traceback__)
+        res["errors"].append("exception: " + "".join(tb[-4:])[-1500:] + " || callstack: " + " > ".join(x.split("/")[-1] for x in ex.call_stack[-6:]))
     res["wall_s"] = time.time() - t0
     return res
 
@@ -240,6 +283,8 @@ def run_check(check, tier="quick", seed=0, replay_only=None):
         entries = [e for e in check["entries"] if tier in e.get("tiers", ("quick", "thorough"))]
         fns = sorted(set(e["fn"] for e in entries))
         irpath, dump_s, dump_msg = run_vdump(check, fns, workdir)
+        if os.environ.get("VERIF_VERBOSE"):
+            print("  vdump %.1fs: %s" % (dump_s, dump_msg))
         tmo = check.get("timeout_ms", {}).get(tier, 120000 if tier == "quick" else 900000)
         jobs = []
         for e in entries:
@@ -268,6 +313,8 @@ def run_check(check, tier="quick", seed=0, replay_only=None):
         kf_seen = set()
         replay_paths = []
         for e, r in zip(entries, results):
+            if os.environ.get("VERIF_VERBOSE"):
+                print("  entry %s: exec %.1fs solver %.1fs wall %.1fs, %d obligations, %d instrs" % (r["entry"].rsplit(".", 1)[1], r.get("exec_s", 0), r.get("solver_s", 0), r["wall_s"], len(r["obligations"]), r.get("ninstr", 0)))
             if r["errors"]:
                 infra.append("%s: %s" % (r["entry"], r["errors"][0]))
                 continue
@@ -280,12 +327,17 @@ def run_check(check, tier="quick", seed=0, replay_only=None):
             assumptions.update(r.get("assumptions", []))
             for u in r["undecided"]:
                 infra.append("%s: undecided obligation %s" % (r["entry"], u["name"]))
+            reach = {}
+            for ob in r["obligations"]:
+                if ob["kind"] == "assert":
+                    reach[ob["name"]] = reach.get(ob["name"], False) or ob["result"] in ("sat", "unknown") or (ob["result"] == "unsat" and ob.get("reachable", True))
+            for nm, ok in reach.items():
+                if not ok and nm not in e.get("may_be_unreachable", ()):
+                    infra.append("%s: assertion %r is unreachable in every instance (vacuous harness)" % (r["entry"], nm))
             for ob in r["obligations"]:
                 ob_total += 1
                 if ob["result"] == "unsat":
                     ob_unsat += 1
-                    if not ob.get("reachable", True) and ob["kind"] == "assert" and ob["name"] not in e.get("may_be_unreachable", ()):
-                        infra.append("%s: assertion %r is unreachable (vacuous harness)" % (r["entry"], ob["name"]))
                     if len(samples) < 12:
                         samples.append({"entry": r["entry"].rsplit(".", 1)[1], "obligation": ob["name"], "kind": ob["kind"], "at": ob["pos"], "result": "unsat", "solver_s": ob.get("solver_s")})
                 elif ob["result"] == "trivial":
@@ -310,7 +362,7 @@ def run_check(check, tier="quick", seed=0, replay_only=None):
                 ename = r["entry"].rsplit(".", 1)[1]
                 rdir = os.path.join(VERIF, "replay", pid)
                 os.makedirs(rdir, exist_ok=True)
-                rpath = os.path.join(rdir, "%s__%s.json" % (ename, re.sub(r"[^A-Za-z0-9]+", "_", v["name"])[:60]))
+                rpath = os.path.join(rdir, "%s__%s_%s.json" % (ename, re.sub(r"[^A-Za-z0-9]+", "_", v["name"])[:60], re.sub(r"[^0-9]", "", (v.get("pos") or "").rsplit(":", 1)[-1])))
                 doc = {"property": pid, "entry": ename, "entry_fn": r["entry"], "obligation": v["name"], "kind": v["kind"], "at": v["pos"], "values": v["model"]}
                 if e.get("replay", "native") == "native":
                     rep, out = native_replay(check, r["entry"], v["model"], workdir, ename)
